@@ -135,8 +135,13 @@ def sym(ctx, cfg):
         for z, v in zip(zt, cfg["labels"]):
             ctx.assume(z == z3.BoolVal(bool(v)))
     shuffle = bool(SBool(z3.Bool("shuffle"))) if cfg.get("shuffle") is None else cfg["shuffle"]
+    twin = bool(cfg.get("case_twin"))  # a second feature whose name differs from "f" only in its case
+    zg = [z3.Real("g%d" % i) for i in range(n)]
+    feats = list(FEATS) + (["F"] if twin else [])
     df = sympd.DataFrame({"spec": list(range(n)), "Label": [SBool(z) for z in zt], "pep": ["PEP%d" % i for i in range(n)],
                           "rowid": list(range(n)), "f": [SNum(z) for z in zf]})
+    if twin:
+        df["F"] = [SNum(z) for z in zg]
     _REC.clear()
     _REC[7] = dict(fits=[], scored=[], scores={}, scaled=bool(cfg.get("scaler")))
     Est = _estimator_class()
@@ -144,7 +149,7 @@ def sym(ctx, cfg):
         Base = Est
         Est = lambda tag: Base.Proba(tag, cfg["proba"])
     gen = symnp.Generator("nondet")
-    inputs = dict(targets=[SBool(z) for z in zt], f=[SNum(z) for z in zf], train_fdr=SNum(fdr), shuffle=shuffle, perms=gen.log,
+    inputs = dict(targets=[SBool(z) for z in zt], f=[SNum(z) for z in zf], g=[SNum(z) for z in zg] if cfg.get("case_twin") else None, train_fdr=SNum(fdr), shuffle=shuffle, perms=gen.log,
                   scores=_ScoreTable(_REC[7]["scores"]), direction=cfg.get("direction"))
     real_tdc = Q.__dict__["tdc"]
     Q.__dict__["tdc"] = tdc_by_spec(ctx)
@@ -152,7 +157,7 @@ def sym(ctx, cfg):
     for i in range(1, 4):  # predict_proba scores are probabilities: keep the fresh score symbols in [0, 1]
         pass
     try:
-        psms = D.LinearPsmDataset(df, target_column="Label", spectrum_columns="spec", peptide_column="pep", feature_columns=list(FEATS), copy_data=True)
+        psms = D.LinearPsmDataset(df, target_column="Label", spectrum_columns="spec", peptide_column="pep", feature_columns=list(feats), copy_data=True)
         model = M.Model(Est(7), scaler=TagScaler() if cfg.get("scaler") else "as-is", train_fdr=SNum(fdr), max_iter=iters, direction=cfg.get("direction"), shuffle=shuffle, rng=gen, override=True)
         model.fit(psms)
         if cfg.get("refit"):
@@ -162,7 +167,9 @@ def sym(ctx, cfg):
         # prediction on a dataset whose feature columns come in another order
         df2 = sympd.DataFrame({"f": [SNum(z) for z in zf], "spec": list(range(n)), "Label": [SBool(z) for z in zt], "pep": ["PEP%d" % i for i in range(n)],
                                "rowid": list(range(n))})
-        psms2 = D.LinearPsmDataset(df2, target_column="Label", spectrum_columns="spec", peptide_column="pep", feature_columns=["f", "rowid"], copy_data=True)
+        if twin:
+            df2["F"] = [SNum(z) for z in zg]
+        psms2 = D.LinearPsmDataset(df2, target_column="Label", spectrum_columns="spec", peptide_column="pep", feature_columns=(["F"] if twin else []) + ["f", "rowid"], copy_data=True)
         pred = model.predict(psms2)
         pred2 = None
         if cfg.get("roundtrip"):
@@ -243,6 +250,14 @@ def sym(ctx, cfg):
     finally:
         Q.__dict__["tdc"] = real_tdc
     props = _fit_props(_REC[7], n, zt, zf, fdr, cfg, iters * (2 if cfg.get("refit") else 1), pred, True)
+    if twin:
+        Xp = _REC[7]["scored"][-1]
+        for j, r in enumerate(Xp.rows):
+            props.append(("predict_row%d_twin_feature_F_by_name" % j, z3.BoolVal(len(r) == 3) if len(r) != 3 else core._z(r[2]) == zg[j]))
+        for k, (X, y) in enumerate(_REC[7]["fits"]):
+            for r in X.rows:
+                if len(r) == 3 and not isinstance(r[0], core.Sym):
+                    props.append(("fit%d_row%d_twin_feature_F" % (k, int(r[0])), core._z(r[2]) == zg[int(r[0])]))
     if cfg.get("roundtrip"):
         props.append(("reloaded_model_predicts_for_every_psm", z3.BoolVal(pred2 is not None and len(pred2) == len(pred))))
         if pred2 is not None and len(pred2) == len(pred):
@@ -341,6 +356,8 @@ def harnesses(tier):
     if tier == "thorough":
         hs.append(Harness("fit[n=4,iters=1,direction=f,fitted twice]", dict(n=4, iters=1, direction="f", proba=0, refit=True, shuffle=False), sym, real="fit", functions=funcs,
                           bounds=dict(N=4, max_iter=1, fits=2), stubs=stubs, assumptions=["0 < train_fdr <= 1"], sample_rate=0.1))
+    hs.append(Harness("fit[n=2,iters=1,direction=f,features f and F differing only in case]", dict(n=2, iters=1, direction="f", proba=0, case_twin=True, shuffle=False), sym, real="fit", functions=funcs,
+                      bounds=dict(N=2, max_iter=1, features=3), stubs=stubs, assumptions=["0 < train_fdr <= 1"], sample_rate=0.6))
     if tier == "quick":
         # three targets and a decoy: the smallest table on which two label sets can accept the same NUMBER of
         # targets but different targets (with N = 3 every q-value is 1/2 or 1)
@@ -456,9 +473,13 @@ def real_fit(cfg, inp):
                 return x[self._perms.pop(0)]
             return x.copy()
     df = pd.DataFrame({"spec": list(range(n)), "Label": tg, "pep": ["PEP%d" % i for i in range(n)], "rowid": list(range(n)), "f": f})
+    twin = bool(cfg.get("case_twin"))
+    g = [float(x) for x in (inp.get("g") or [])]
+    if twin:
+        df["F"] = g
     fdr = float(inp["train_fdr"])
     try:
-        psms = LinearPsmDataset(df, target_column="Label", spectrum_columns="spec", peptide_column="pep", feature_columns=list(FEATS), copy_data=True)
+        psms = LinearPsmDataset(df, target_column="Label", spectrum_columns="spec", peptide_column="pep", feature_columns=list(FEATS) + (["F"] if twin else []), copy_data=True)
         scaler = "as-is"
         if cfg.get("scaler"):
             from sklearn.base import BaseEstimator as _BE
@@ -481,8 +502,8 @@ def real_fit(cfg, inp):
         model.fit(psms)
         if cfg.get("refit"):
             model.fit(psms)
-        df2 = df[["f", "spec", "Label", "pep", "rowid"]]
-        psms2 = LinearPsmDataset(df2, target_column="Label", spectrum_columns="spec", peptide_column="pep", feature_columns=["f", "rowid"], copy_data=True)
+        df2 = df[(["F"] if twin else []) + ["f", "spec", "Label", "pep", "rowid"]]
+        psms2 = LinearPsmDataset(df2, target_column="Label", spectrum_columns="spec", peptide_column="pep", feature_columns=(["F"] if twin else []) + ["f", "rowid"], copy_data=True)
         pred = model.predict(psms2)
         rt_violation = None
         if cfg.get("roundtrip"):
@@ -516,6 +537,8 @@ def real_fit(cfg, inp):
         return dict(violation=rt_violation)
     Xp = log["scored"][-2 if cfg.get("roundtrip") and len(log["scored"]) >= 2 else -1]
     for j in range(n):
+        if twin and (len(Xp[j]) != 3 or abs(float(Xp[j][2]) - g[j]) > 1e-9):
+            return dict(violation="predict: feature 'F' of PSM %d reached the estimator as %s, the PSM's own value is %r (features 'f' and 'F' differ only in case; 'f' is %r)" % (j, Xp[j].tolist(), g[j], f[j]))
         if rid(Xp[j][0]) != j or abs(float(Xp[j][1]) - (a1 * f[j] + b1)) > 1e-9:
             return dict(violation="predict: the estimator did not receive PSM %d's features selected by name and scaled with their own parameters: got %s, expected %s" % (j, Xp[j].tolist(), [a0 * j + b0, a1 * f[j] + b1]))
     return dict(outputs=None, violation=None)
